@@ -257,63 +257,55 @@ theorem c09_pinned_tick_self_deadlock_witness :
 `harness/vf/extract/py2lean_telomere.py` on every run (fail closed: a construct outside the supported subset yields
 `untranslatable …`, which no proof below survives).  Each theorem: for every configuration, every state and every
 list of callbacks already emitted, the translated Python method computes exactly the state, the callback stream and
-the return value of `step` for that operation.  Hence every theorem above is a theorem about the translated source. -/
+the return value of `step` for that operation.  Hence every theorem above is a theorem about the translated source.
+All translated definitions (the nine methods and whatever helpers they call, under whatever name) are `@[simp]`; the
+proofs name none of them except the method in the statement, and normalise both sides to decision trees over the same
+atoms (`cases` on the phase / the optionals, `simp`, `split`, `omega`), so behaviour-preserving refactorings inside the
+translator's subset — extracted or inlined helpers, flag variable vs. direct return, guard clause vs. nested `if`,
+named constant sets, logging — leave them green. -/
 
-theorem c09_translation_agrees_enter_senescence (cfg : Cfg) (s : State) (evs : List Ev) (r : Reason) :
-    Tr.enter_senescence cfg s evs r = ((enterSenescence s r).1, evs ++ (enterSenescence s r).2, .unit) := by
+theorem c09_translation_agrees_start (cfg : Cfg) (s : State) (evs : List Ev) : Tr.start cfg s evs = stepOut cfg s evs .start := by
   obtain ⟨ph, len, errs, ops, ren, rsn, st0, la, now⟩ := s
-  cases ph <;> simp [Tr.enter_senescence, Tr.transition_to, enterSenescence]
+  cases ph <;> simp [stepOut, step, start, started] <;> (repeat' split) <;> (try simp_all) <;> (try omega)
 
-theorem c09_translation_agrees_start (cfg : Cfg) (s : State) (evs : List Ev) :
-    Tr.start cfg s evs = stepOut cfg s evs .start := by
-  obtain ⟨ph, len, errs, ops, ren, rsn, st0, la, now⟩ := s
-  cases ph <;> simp [Tr.start, Tr.transition_to, stepOut, step, start, started]
-
-theorem c09_translation_agrees_tick (cfg : Cfg) (s : State) (evs : List Ev) (c : Nat) :
-    Tr.tick cfg s evs c = stepOut cfg s evs (.tick c) := by
+theorem c09_translation_agrees_tick (cfg : Cfg) (s : State) (evs : List Ev) (c : Nat) : Tr.tick cfg s evs c = stepOut cfg s evs (.tick c) := by
   obtain ⟨ph, len, errs, ops, ren, rsn, st0, la, now⟩ := s
   cases ph <;>
-    simp [Tr.tick, Tr.start, Tr.check_senescence, Tr.enter_senescence, Tr.transition_to, stepOut, step, tick, started,
-      enterSenescence, depleted] <;> (repeat' split) <;> simp_all <;> omega
+    simp [stepOut, step, tick, started, enterSenescence, depleted] <;> (repeat' split) <;> (try simp_all) <;> (try omega)
 
-theorem c09_translation_agrees_record_error (cfg : Cfg) (s : State) (evs : List Ev) :
-    Tr.record_error cfg s evs = stepOut cfg s evs .err := by
+theorem c09_translation_agrees_record_error (cfg : Cfg) (s : State) (evs : List Ev) : Tr.record_error cfg s evs = stepOut cfg s evs .err := by
   obtain ⟨ph, len, errs, ops, ren, rsn, st0, la, now⟩ := s
   cases ph <;>
-    simp [Tr.record_error, Tr.enter_senescence, Tr.transition_to, stepOut, step, recordError,
-      enterSenescence, errorRateHit, Gen.TelomereConsts.errorRateNum, Gen.TelomereConsts.errorRateDen] <;>
-    (repeat' split) <;> simp_all <;> omega
+    simp [stepOut, step, recordError, enterSenescence, errorRateHit, Gen.TelomereConsts.errorRateNum,
+      Gen.TelomereConsts.errorRateDen] <;>
+    (repeat' split) <;> (try simp_all) <;> (try omega)
 
-theorem c09_translation_agrees_heartbeat (cfg : Cfg) (s : State) (evs : List Ev) :
-    Tr.heartbeat cfg s evs = stepOut cfg s evs .hb := by
-  simp [Tr.heartbeat, stepOut, step, heartbeat]
+theorem c09_translation_agrees_heartbeat (cfg : Cfg) (s : State) (evs : List Ev) : Tr.heartbeat cfg s evs = stepOut cfg s evs .hb := by
+  simp [stepOut, step, heartbeat]
 
-theorem c09_translation_agrees_check_timeouts (cfg : Cfg) (s : State) (evs : List Ev) :
-    Tr.check_timeouts cfg s evs = stepOut cfg s evs .timeouts := by
+theorem c09_translation_agrees_check_timeouts (cfg : Cfg) (s : State) (evs : List Ev) : Tr.check_timeouts cfg s evs = stepOut cfg s evs .timeouts := by
   obtain ⟨ph, len, errs, ops, ren, rsn, st0, la, now⟩ := s
   obtain ⟨mo, et, ar, life, idle⟩ := cfg
   cases ph <;> cases life <;> cases idle <;> cases st0 <;> cases la <;>
-    simp [Tr.check_timeouts, Tr.enter_senescence, Tr.transition_to, stepOut, step, checkTimeouts,
-      enterSenescence, limitHit] <;> (repeat' split) <;> simp_all <;> omega
+    simp [stepOut, step, checkTimeouts, enterSenescence, limitHit] <;> (repeat' split) <;> (try simp_all) <;> (try omega)
 
 theorem c09_translation_agrees_renew (cfg : Cfg) (s : State) (evs : List Ev) (n : Option Nat) (r : Bool) :
     Tr.renew cfg s evs n r = stepOut cfg s evs (.renew n r) := by
   obtain ⟨ph, len, errs, ops, ren, rsn, st0, la, now⟩ := s
   cases ph <;> cases r <;>
-    simp [Tr.renew, Tr.transition_to, stepOut, step, renew, pyOr_eq_renewAmount] <;> (repeat' split) <;> simp_all
+    simp [stepOut, step, renew, pyOr_eq_renewAmount] <;> (repeat' split) <;> (try simp_all) <;> (try omega)
 
-theorem c09_translation_agrees_trigger_apoptosis (cfg : Cfg) (s : State) (evs : List Ev) :
-    Tr.trigger_apoptosis cfg s evs () = stepOut cfg s evs .apo := by
+theorem c09_translation_agrees_trigger_apoptosis (cfg : Cfg) (s : State) (evs : List Ev) : Tr.trigger_apoptosis cfg s evs () = stepOut cfg s evs .apo := by
   obtain ⟨ph, len, errs, ops, ren, rsn, st0, la, now⟩ := s
-  cases ph <;> simp [Tr.trigger_apoptosis, Tr.transition_to, stepOut, step, apoptosis]
+  cases ph <;> simp [stepOut, step, apoptosis] <;> (repeat' split) <;> (try simp_all) <;> (try omega)
 
-theorem c09_translation_agrees_terminate (cfg : Cfg) (s : State) (evs : List Ev) :
-    Tr.terminate cfg s evs = stepOut cfg s evs .term := by
-  simp [Tr.terminate, Tr.transition_to, stepOut, step, terminate]
+theorem c09_translation_agrees_terminate (cfg : Cfg) (s : State) (evs : List Ev) : Tr.terminate cfg s evs = stepOut cfg s evs .term := by
+  obtain ⟨ph, len, errs, ops, ren, rsn, st0, la, now⟩ := s
+  cases ph <;> simp [stepOut, step, terminate] <;> (repeat' split) <;> (try simp_all) <;> (try omega)
 
-theorem c09_translation_agrees_reset (cfg : Cfg) (s : State) (evs : List Ev) :
-    Tr.reset cfg s evs = stepOut cfg s evs .reset := by
-  simp [Tr.reset, stepOut, step, reset]
+theorem c09_translation_agrees_reset (cfg : Cfg) (s : State) (evs : List Ev) : Tr.reset cfg s evs = stepOut cfg s evs .reset := by
+  obtain ⟨ph, len, errs, ops, ren, rsn, st0, la, now⟩ := s
+  cases ph <;> simp [stepOut, step, reset] <;> (repeat' split) <;> (try simp_all) <;> (try omega)
 
 /-! ## Non-vacuity: concrete histories meeting the hypotheses -/
 
